@@ -78,18 +78,12 @@ theorem tensor_ext (a b : Tensor α) (ha : a.WF) (hb : b.WF) (hd : a.dims = b.di
   simp only at hd hdata
   rw [hd, hdata]
 
-/-- non-vacuity: the hypotheses are satisfiable, and dropping well-formedness breaks the conclusion (trailing junk
-    data are invisible to `at?`) -/
-example : (⟨[2], [1, 2]⟩ : Tensor Int).WF ∧
-    (∀ idx, (⟨[2], [1, 2]⟩ : Tensor Int).at? idx = (⟨[2], [1, 2, 3]⟩ : Tensor Int).at? idx ∨ ¬ idx.length = 1 ∨ ¬ idx.headD 0 < 2) := by
-  refine ⟨by decide, ?_⟩
-  intro idx
-  match idx with
-  | [] => right; left; decide
-  | [0] => left; decide
-  | [1] => left; decide
-  | [n + 2] => right; right; simp
-  | _ :: _ :: _ => right; left; simp
+/-- non-vacuity, and why well-formedness is a hypothesis: trailing junk data are invisible to `at?`, so the two tensors
+    below agree on dims and on every valid index yet differ — the second one is not well formed -/
+example : (⟨[2], [1, 2]⟩ : Tensor Int).WF ∧ ¬ (⟨[2], [1, 2, 3]⟩ : Tensor Int).WF ∧
+    (⟨[2], [1, 2]⟩ : Tensor Int).at? [0] = (⟨[2], [1, 2, 3]⟩ : Tensor Int).at? [0] ∧
+    (⟨[2], [1, 2]⟩ : Tensor Int).at? [1] = (⟨[2], [1, 2, 3]⟩ : Tensor Int).at? [1] ∧
+    (⟨[2], [1, 2]⟩ : Tensor Int) ≠ ⟨[2], [1, 2, 3]⟩ := by decide
 
 /-! ## 1. Transpose is an involution -/
 
@@ -1206,6 +1200,20 @@ theorem matmul_transpose (A B : Tensor ℝ) (hA : A.WF) (hB : B.WF) (bd : List N
     ∃ C Ct At Bt, vMatMul A B = .ok C ∧ vTranspose C = .ok Ct ∧ vTranspose A = .ok At ∧ vTranspose B = .ok Bt ∧
       vMatMul Bt At = .ok Ct :=
   matmul_transpose_of ringLaws_real.mul_comm A B hA hB bd m n k hdA hdB
+
+/-- `(A · B)ᵀ = Bᵀ · Aᵀ` as one equation between the two pipelines (both sides are `ok` of the same tensor) -/
+theorem matmul_transpose_eq (A B : Tensor ℝ) (hA : A.WF) (hB : B.WF) (bd : List Nat) (m n k : Nat)
+    (hdA : A.dims = bd ++ [m, n]) (hdB : B.dims = bd ++ [n, k]) :
+    (vMatMul A B).bind vTranspose = (vTranspose B).bind (fun bt => (vTranspose A).bind (fun at' => vMatMul bt at')) ∧
+      ∃ Ct, (vMatMul A B).bind vTranspose = .ok Ct := by
+  obtain ⟨C, Ct, At, Bt, e1, e2, e3, e4, e5⟩ := matmul_transpose A B hA hB bd m n k hdA hdB
+  refine ⟨?_, Ct, ?_⟩ <;> simp only [e1, e2, e3, e4, e5, Out.bind]
+
+/-- non-vacuity (kernel-checked on `Int`): a 2×3 matrix times `Eye(3)`, `Eye(2)` times it; a batch `[2,2,2]` against
+    `Eye(2)` on either side -/
+example : vMatMul (⟨[2, 2, 2], [1, 2, 3, 4, 5, 6, 7, 8]⟩ : Tensor Int) (eyeMatrix 2) = .ok ⟨[2, 2, 2], [1, 2, 3, 4, 5, 6, 7, 8]⟩ ∧
+    vMatMul (eyeMatrix 2) (⟨[2, 2, 2], [1, 2, 3, 4, 5, 6, 7, 8]⟩ : Tensor Int) = .ok ⟨[2, 2, 2], [1, 2, 3, 4, 5, 6, 7, 8]⟩ := by
+  decide
 
 /-- non-vacuity (kernel-checked on `Int`): a 2×3 matrix times `Eye(3)`, `Eye(2)` times it -/
 example : vEye (3 : Int) = .ok (⟨[3, 3], [1, 0, 0, 0, 1, 0, 0, 0, 1]⟩ : Tensor Int) ∧
